@@ -4,7 +4,6 @@ import (
 	"github.com/f1bonacc1/process-compose/src/types"
 	"net/http"
 	"strconv"
-	"sync"
 
 	"github.com/f1bonacc1/process-compose/src/app"
 	"github.com/gin-gonic/gin"
@@ -27,7 +26,6 @@ import (
 
 type PcApi struct {
 	project app.IProject
-	wsMtx   sync.Mutex
 }
 
 func NewPcApi(project app.IProject) *PcApi {
